@@ -59,7 +59,7 @@ func (c *Concretiser) prepScript(q M) string {
 		return ""
 	}
 	if S(q, "parse") == "blank" {
-		ws := []string{"", " ", "  \t\n ", "\n"}
+		ws := []string{"", " ", "  \t\n ", "\n", "\f", "\v", " \n\f\n ", "\t\v", "\u00a0", "\u2003 \u0085"}
 		return ws[c.Rng.Intn(len(ws))]
 	}
 	id := I(q, "id")
@@ -475,6 +475,9 @@ func (c *Concretiser) badBytes(m M) []byte {
 		}
 		return pgw.Typed('C', []byte("Sname-without-nul"))
 	case "f":
+		if cls == "short" {
+			return pgw.Typed('f', nil) // a CopyFail without any body
+		}
 		return pgw.Typed('f', []byte("reason-without-nul"))
 	case "Startup":
 		if cls == "short" {
